@@ -3,6 +3,7 @@
   (`wrap_instantiated_class`, `wrap_enum`, `wrap_global_function`) and `wrap_namespace`.
 -/
 import WrapModel.Model.Matlab.Base
+import WrapModel.Model.Matlab.Ids
 
 namespace WrapModel.Matlab
 open WrapModel WrapModel.Inst
@@ -21,14 +22,19 @@ inductive Target where
   | func (o : Ovl IFunc)
 deriving Inhabited
 
-/-- one `wrapper_map` value -/
-structure Entry where
+/-- the payload of one `wrapper_map` value (the id part lives in `Ids.IdEntry`) -/
+structure EntryP where
   ns : String
   target : Target
   kind : String
-  name : String
+  base : String      -- routine name without the `_<id>` suffix
   extra : Extra
 deriving Inhabited
+
+abbrev Entry := Ids.IdEntry EntryP
+
+/-- `function_name + '_' + str(id + id_diff)` -/
+def entryName (e : Entry) : String := e.payload.base ++ "_" ++ toString e.shown
 
 /-- elements of `self.content` -/
 inductive Content where
@@ -38,8 +44,7 @@ inductive Content where
 deriving Inhabited
 
 structure St where
-  nextId : Nat := 0
-  map : List (Nat × Entry) := []
+  ids : Ids.IdState EntryP := {}
   includes : List String := []
   classes : List IClass := []
   content : List Content := []
@@ -53,25 +58,28 @@ structure MCfg where
 
 def MCfg.wrapper (cfg : MCfg) : String := cfg.moduleName ++ "_wrapper"
 
-/-- `_update_wrapper_id()` without a collector function: reserves an id -/
-def reserveId : M Nat := do
-  let s ← get
-  set { s with nextId := s.nextId + 1 }
-  pure s.nextId
-
-/-- `_update_wrapper_id(collector_function, id_diff, function_name)` -/
-def allocId (ns : String) (target : Target) (kind : String) (extra : Extra) (minusOne : Bool := false)
-    (fname : Option String := none) : M Nat := do
-  let s ← get
+def mkPayload (ns : String) (target : Target) (kind : String) (extra : Extra) (fname : Option String) : EntryP :=
   let base := match fname with
     | some f => f
     | none => match target with
       | .cls c => ns ++ c.name ++ "_" ++ kind
       | .func o => o.base.name
-  let shown := if minusOne then s.nextId - 1 else s.nextId
-  let e : Entry := ⟨ns, target, kind, base ++ "_" ++ toString shown, extra⟩
-  set { s with nextId := s.nextId + 1, map := s.map ++ [(s.nextId, e)] }
-  pure s.nextId
+  ⟨ns, target, kind, base, extra⟩
+
+/-- `_update_wrapper_id(collector_function, function_name=…)` -/
+def allocId (ns : String) (target : Target) (kind : String) (extra : Extra) (fname : Option String := none) : M Nat := do
+  let s ← get
+  let (ids, id) := s.ids.alloc (mkPayload ns target kind extra fname)
+  set { s with ids := ids }
+  pure id
+
+/-- virtual classes: `_update_wrapper_id()` then `_update_wrapper_id(collector_function, id_diff=-1)`;
+    returns the reserved id `k` (the collector routine is called as `k`, the up-cast as `k + 1`) -/
+def allocVirtualId (ns : String) (target : Target) (kind : String) (extra : Extra) : M Nat := do
+  let s ← get
+  let (ids, k) := s.ids.allocVirtual (mkPayload ns target kind extra none)
+  set { s with ids := ids }
+  pure k
 
 def liftE (e : Except Err α) : M α := fun s => match e with | .ok a => .ok (a, s) | .error x => .error x
 
@@ -113,15 +121,16 @@ def wrapClassConstructors (cfg : MCfg) (ns : String) (c : IClass) : M String := 
   let head := "methods\n  function obj = " ++ c.name ++ "(varargin)\n"
     ++ (if c.isVirtual then "    if (nargin == 2 || (nargin == 3 && strcmp(varargin{3}, 'void')))" else "    if nargin == 2")
     ++ " && isa(varargin{1}, 'uint64') && varargin{1} == " ++ magic ++ "\n"
-  let ptrPart ← (do
+  let (ptrPart, collectId) ← (do
     if c.isVirtual then
-      let k ← reserveId
+      let k ← allocVirtualId ns (.cls c) "collectorInsertAndMakeBase" .none
       pure (indentText "      " ("if nargin == 2\n  my_ptr = varargin{2};\nelse\n  my_ptr = " ++ cfg.wrapper ++ "("
-        ++ toString (k + 1) ++ ", varargin{2});\nend\n"))
-    else pure "      my_ptr = varargin{2};\n" : M String)
-  let cb ← allocId ns (.cls c) "collectorInsertAndMakeBase" .none (minusOne := c.isVirtual)
+        ++ toString (k + 1) ++ ", varargin{2});\nend\n"), k)
+    else
+      let cb ← allocId ns (.cls c) "collectorInsertAndMakeBase" .none
+      pure ("      my_ptr = varargin{2};\n", cb) : M (String × Nat))
   let collect := "      " ++ (if hasParent then "base_ptr = " else "") ++ cfg.wrapper ++ "("
-    ++ toString (cb - (if c.isVirtual then 1 else 0)) ++ ", my_ptr);\n"
+    ++ toString collectId ++ ", my_ptr);\n"
   let mut body := head ++ ptrPart ++ collect
   for o in ctors do
     let num ← allocId ns (.cls c) "constructor" (.ctor o)
